@@ -56,16 +56,17 @@ package internal
 //@   modifies heap configv1.Filter.Type, heap oidcv1.OIDCConfig.Scopes, cfg.DefaultOidcConfig, above(watermark()), ghost CloneMark
 //@   ensures  no_override: result == nil ==> forall i int, j int :: 0 <= i && i < len(cfg.Chains) && 0 <= j && j < len(cfg.Chains[i].Filters) ==> !istype(cfg.Chains[i].Filters[j].Type, *configv1.Filter_OidcOverride)
 //@   ensures  shape: WFConfig(cfg) && cfg.Chains == old(cfg.Chains)
-//@   ensures  openid: result == nil ==> forall i int, j int :: 0 <= i && i < len(cfg.Chains) && 0 <= j && j < len(cfg.Chains[i].Filters) ==> (cfg.Chains[i].Filters[j].GetOidc() != nil ==> HasOpenID(cfg.Chains[i].Filters[j].GetOidc()))
-//@   ensures  logout_paths: result == nil ==> forall i int, j int :: 0 <= i && i < len(cfg.Chains) && 0 <= j && j < len(cfg.Chains[i].Filters) ==> LogoutOK(cfg.Chains[i].Filters[j].GetOidc())
+//@   ensures  openid: result == nil ==> forall i int, j int :: 0 <= i && i < len(cfg.Chains) && 0 <= j && j < len(cfg.Chains[i].Filters) ==> (FOidc(cfg, i, j) != nil ==> HasOpenID(FOidc(cfg, i, j)))
+//@   ensures  logout_paths: result == nil ==> forall i int, j int :: 0 <= i && i < len(cfg.Chains) && 0 <= j && j < len(cfg.Chains[i].Filters) ==> LogoutOK(FOidc(cfg, i, j))
 //@   loop 1 invariant errs_nonnil: forall k int :: 0 <= k && k < len(errs) ==> errs[k] != nil
 //@   loop 2 invariant errs_nonnil: forall k int :: 0 <= k && k < len(errs) ==> errs[k] != nil
-//@   loop 1 invariant lg1: len(errs) == 0 ==> forall i int, j int :: 0 <= i && i <= rangeindex1 && 0 <= j && j < len(cfg.Chains[i].Filters) ==> LogoutOK(cfg.Chains[i].Filters[j].GetOidc())
-//@   loop 2 invariant lg1: len(errs) == 0 ==> forall i int, j int :: 0 <= i && i <= rangeindex1 && 0 <= j && j < len(cfg.Chains[i].Filters) ==> LogoutOK(cfg.Chains[i].Filters[j].GetOidc())
-//@   loop 2 invariant lg2: len(errs) == 0 ==> forall j int :: 0 <= j && j <= rangeindex2 ==> LogoutOK(cfg.Chains[rangeindex1 + 1].Filters[j].GetOidc())
-//@   loop 1 invariant oid1: forall i int, j int :: 0 <= i && i <= rangeindex1 && 0 <= j && j < len(cfg.Chains[i].Filters) ==> (cfg.Chains[i].Filters[j].GetOidc() != nil ==> HasOpenID(cfg.Chains[i].Filters[j].GetOidc()))
-//@   loop 2 invariant oid1: forall i int, j int :: 0 <= i && i <= rangeindex1 && 0 <= j && j < len(cfg.Chains[i].Filters) ==> (cfg.Chains[i].Filters[j].GetOidc() != nil ==> HasOpenID(cfg.Chains[i].Filters[j].GetOidc()))
-//@   loop 2 invariant oid2: forall j int :: 0 <= j && j <= rangeindex2 ==> (cfg.Chains[rangeindex1 + 1].Filters[j].GetOidc() != nil ==> HasOpenID(cfg.Chains[rangeindex1 + 1].Filters[j].GetOidc()))
+//@   loop 1 invariant lg1: len(errs) == 0 ==> forall i int, j int :: 0 <= i && i <= rangeindex1 && 0 <= j && j < len(cfg.Chains[i].Filters) ==> LogoutOK(FOidc(cfg, i, j))
+//@   loop 2 invariant lg1: len(errs) == 0 ==> forall i int, j int :: 0 <= i && i <= rangeindex1 && 0 <= j && j < len(cfg.Chains[i].Filters) ==> LogoutOK(FOidc(cfg, i, j))
+//@   loop 2 invariant lg2: len(errs) == 0 ==> forall j int :: 0 <= j && j <= rangeindex2 ==> LogoutOK(FOidc(cfg, rangeindex1 + 1, j))
+//@   loop 1 invariant oid1: forall i int, j int :: 0 <= i && i <= rangeindex1 && 0 <= j && j < len(cfg.Chains[i].Filters) ==> (FOidc(cfg, i, j) != nil ==> HasOpenID(FOidc(cfg, i, j)))
+//@   loop 2 invariant oid1: forall i int, j int :: 0 <= i && i <= rangeindex1 && 0 <= j && j < len(cfg.Chains[i].Filters) ==> (FOidc(cfg, i, j) != nil ==> HasOpenID(FOidc(cfg, i, j)))
+//@   loop 2 invariant oid2_cur: rangeindex2 >= 0 && FOidc(cfg, rangeindex1 + 1, rangeindex2) != nil ==> HasOpenID(FOidc(cfg, rangeindex1 + 1, rangeindex2))
+//@   loop 2 invariant oid2: forall j int :: 0 <= j && j <= rangeindex2 ==> (FOidc(cfg, rangeindex1 + 1, j) != nil ==> HasOpenID(FOidc(cfg, rangeindex1 + 1, j)))
 //@   loop 1 invariant wf: cfg != nil && WFConfig(cfg) && cfg.Chains == $rangeslice1
 //@   loop 1 invariant done1: forall i int, j int :: 0 <= i && i <= rangeindex1 && 0 <= j && j < len(cfg.Chains[i].Filters) ==> !istype(cfg.Chains[i].Filters[j].Type, *configv1.Filter_OidcOverride)
 //@   loop 2 invariant done1: forall i int, j int :: 0 <= i && i <= rangeindex1 && 0 <= j && j < len(cfg.Chains[i].Filters) ==> !istype(cfg.Chains[i].Filters[j].Type, *configv1.Filter_OidcOverride)
